@@ -493,6 +493,34 @@ func runProgram(c Case, pin bool, o *pbt.Obs) *pbt.Failure {
 		}
 		return pbt.Failf(key, "%s", strings.Join(bad, "; "))
 	}
+	// (7) insert-only programs inside C07's exactness regime (no link is ever dropped on layer 0: n <= 2M+1; the beam
+	// covers the collection: k >= n; simple selection or the heuristic with its default sub-flags): when activity has
+	// stopped, search must be exact as it is after any sequential insertion order - every stored item is returned
+	insertOnly := !c.Cfg.Default && (!c.Cfg.Heur || (!c.Cfg.Ext && c.Cfg.Keep)) && len(final) >= 1 && len(final) <= 2*c.Cfg.M+1
+	for _, prog := range c.Writers {
+		for _, op := range prog {
+			if op.K == ORemove {
+				insertOnly = false
+			}
+		}
+	}
+	if insertOnly {
+		o.Label("insert-only-program-judged-for-exactness")
+		n := len(final)
+		for q := 0; q < 8; q++ {
+			res, err := idx.Search(context.Background(), amath.Vector(query(q)), uint(n))
+			if err != nil {
+				return pbt.Failf("C13:search-error", "Search after quiescence: %v", err)
+			}
+			if len(res) != n {
+				return pbt.Failf("C13:stored-item-unreachable-after-quiescence", "insert-only program, %d items stored (M=%d, so no layer-0 link was ever dropped), Search(k=%d) for query %v returned %d items: a stored item can not be reached", n, c.Cfg.M, n, query(q), len(res))
+			}
+			if f := idxsm.CheckSearch(res, final, sp, query(q), n, "exhaustive search after quiescence"); f != nil {
+				f.Key = "C13:" + strings.TrimPrefix(f.Key, "C01:")
+				return f
+			}
+		}
+	}
 	for q := 0; q < 8; q++ {
 		res, err := idx.Search(context.Background(), amath.Vector(query(q)), 5)
 		if err != nil {
@@ -591,7 +619,7 @@ func check(c Case, o *pbt.Obs) *pbt.Failure {
 func TestConcurrentIndex(t *testing.T) {
 	pbt.Run(t, pbt.Prop[Case]{
 		ID: "C13", Name: "TestConcurrentIndex",
-		Rule: "rapid-generated concurrent programs on a fresh index.Hnsw (race-detector build): 1 writer (two thirds of the cases) or 2-6 writers plus 0-6 readers, each a list of 4-40 Insert/Remove/Get/Len/Search/yield ops (the single writer additionally installs snapshots: Save then Load of the bytes, as a replica's apply loop does while it serves reads) over a pool of 2-6 shared ids, every (id,version) with a unique vector, GOMAXPROCS in {2,4,16}, each program run 1-4 times; oracles: no new race report in the GORACE log while the program ran, no panic, no deadlock (20 s watchdog with index frames in the dump), per-id insert/remove/get outcomes linearizable as a set (porcupine), every search item corresponds to a version that may have been live during the search with exactly its score, and at quiescence Len == retrievable ids == stored vertices, structural invariants hold and searches satisfy C01's predicate; non-trivial = >=2 goroutines touch the same id and one of them writes it; distinct = distinct case JSON",
+		Rule: "rapid-generated concurrent programs on a fresh index.Hnsw (race-detector build): 1 writer (two thirds of the cases) or 2-6 writers plus 0-6 readers, each a list of 4-40 Insert/Remove/Get/Len/Search/yield ops (the single writer additionally installs snapshots: Save then Load of the bytes, as a replica's apply loop does while it serves reads) over a pool of 2-6 shared ids, every (id,version) with a unique vector, GOMAXPROCS in {2,4,16}, each program run 1-4 times; oracles: no new race report in the GORACE log while the program ran, no panic, no deadlock (20 s watchdog with index frames in the dump), per-id insert/remove/get outcomes linearizable as a set (porcupine), every search item corresponds to a version that may have been live during the search with exactly its score, and at quiescence Len == retrievable ids == stored vertices, structural invariants hold and searches satisfy C01's predicate, and after insert-only programs inside C07's exactness regime (n <= 2M+1, k = n) every stored item is returned; non-trivial = >=2 goroutines touch the same id and one of them writes it; distinct = distinct case JSON",
 		Gen:     genCase,
 		Check:   check,
 		Journal: true,
